@@ -37,7 +37,7 @@ def REQUIRED(tier):
 
 def _required(tier):
     return ["snapshots_taken", "snapshot_prefix_checks", "kill_children", "kill:died_at_point", "kill:survivor_opened", "truncations", "strace_runs", "strace_write_events",
-            "writers_covered", "snapshot:preexisting_output", "kill:preexisting_output", "snapshot:product_over_1MiB", "kill:unwound_by_exception", "strace:header_over_512_bytes_confirmed"]
+            "writers_covered", "snapshot:preexisting_output", "kill:preexisting_output", "snapshot:product_over_1MiB", "kill:unwound_by_exception", "strace:header_over_512_bytes_confirmed", "rewrites_of_an_opened_name", "rewrite:equal_length_products"]
 
 
 def EXHAUSTIVE(tier):
@@ -66,6 +66,8 @@ def cases(tier, seed):
                 yield {"kind": "kill", "writer": w, "gulp": 1, "k": k}
     for nbits in (1, 2, 4, 8, 16, 32):
         yield {"kind": "truncate", "nbits": nbits, "seed": int(seed)}
+    for i in range(5):
+        yield {"kind": "rewrite", "seed": int(seed) * 5 + i}
     sw = ("invert_freq", "extract_samps", "extract_chans", "subband", "ts_to_tim") if tier == "quick" else c20_scen.WRITERS
     for w in sw:
         yield {"kind": "strace", "writer": w, "gulp": 5}
@@ -109,7 +111,7 @@ def _newdir(ctx, tag):
 
 
 def run_case(case, ctx):
-    {"snapshot": _snapshot, "kill": _kill, "truncate": _truncate, "strace": _strace}[case["kind"]](case, ctx)
+    {"snapshot": _snapshot, "kill": _kill, "truncate": _truncate, "strace": _strace, "rewrite": _rewrite}[case["kind"]](case, ctx)
 
 
 def _snapshot(case, ctx):
@@ -292,6 +294,39 @@ def _kill(case, ctx):
         ctx.nontrivial_case(case)
     if k == 3:
         ctx.sample({"writer": w, "gulp": gulp, "kill_after_write": k, "survivors": {n: os.path.getsize(os.path.join(d, n)) for n in present}, "full_sizes": {n: len(v) for n, v in ref.items()}})
+    shutil.rmtree(d, ignore_errors=True)
+
+
+def _rewrite(case, ctx):
+    """A name the process has already opened is written again with a different product of the same byte length: what the library's own reader
+    then returns must be what an independent parse of the bytes on disk gives (header first, complete, readable - for the file that is there now)."""
+    from sigpyproc.readers import FilReader
+
+    d = _newdir(ctx, "w")
+    p, X = c20_scen.make_input(d, 8, case["seed"])
+    out = os.path.join(d, "out.fil")
+    kw = {"gulp": 5, "quiet": True, "description": "v"}
+    steps = [lambda f: f.downsample(1, 2, out, **kw), lambda f: f.downsample(2, 1, out, **kw), lambda f: f.invert_freq(out, **kw), lambda f: f.extract_samps(0, c20_scen.N, out, **kw)]
+    order = [(0, 1), (1, 0), (2, 3), (3, 2), (0, 1, 0)][case["seed"] % 5]
+    sizes = []
+    for k in order:
+        ctx.evaluated(); ctx.count("rewrites_of_an_opened_name")
+        steps[k](FilReader(p))
+        dd, hl, raw = sigfile.parse_file(out)
+        sizes.append(hl + len(raw))
+        want = sigfile.decode_data(raw, dd["nbits"], dd["nchans"]).astype(np.float64)
+        try:
+            o = FilReader(out)
+            got = o.read_block(0, o.header.nsamples).data.T.astype(np.float64)
+        except Exception as exc:  # noqa: BLE001
+            ctx.violation(f"rewritten-product-unreadable:{type(exc).__name__}", f"after rewriting {os.path.basename(out)} ({sizes} bytes): {fmt_exc(exc)}", case)
+            return
+        if o.header.nchans != dd["nchans"] or got.shape != want.shape or not np.array_equal(got, want):
+            ctx.violation("rewritten-product-read-with-stale-header", f"the file now holds {want.shape[0]}x{dd['nchans']} samples; FilReader returns {got.shape[0]}x{o.header.nchans} (sizes of the successive products: {sizes})", case)
+            return
+    if len(set(sizes)) < len(sizes):
+        ctx.count("rewrite:equal_length_products")
+    ctx.nontrivial_case(case)
     shutil.rmtree(d, ignore_errors=True)
 
 
